@@ -159,6 +159,7 @@ func cmdCheck(args []string) int {
 	noEvidence := fs.Bool("no-evidence", false, "")
 	ovTimeout := fs.Int("timeout-ms", 0, "override per-query timeout")
 	ovMaxPaths := fs.Int("maxpaths", 0, "override path limit")
+	ovDeadline := fs.Int("deadline-sec", 0, "override the time box of every obligation")
 	logsmt := fs.String("logsmt", "", "directory for solver transcripts")
 	symReplay := fs.String("sym-replay", "", "run the harness of a replay file in the interpreter with concrete inputs")
 	noIfConv := fs.Bool("no-ifconv", false, "disable if-conversion")
@@ -294,12 +295,21 @@ func cmdCheck(args []string) int {
 		opts.LogSMT = *logsmt
 		opts.Progress = true
 		opts.Seed = seed
-		if o.DeadlineSec > 0 {
-			opts.Deadline = time.Duration(o.DeadlineSec) * time.Second
-		} else if *tier == "quick" {
+		switch {
+		case *ovDeadline > 0:
+			opts.Deadline = time.Duration(*ovDeadline) * time.Second
+		case *tier == "quick":
 			opts.Deadline = 15 * time.Minute // safety net: a quick obligation never runs longer (reported as truncated)
-		} else {
-			opts.Deadline = 60 * time.Minute
+		default:
+			// thorough: every obligation is time-boxed (10 min unless stated otherwise, never more than 20 min)
+			d := o.DeadlineSec
+			if d == 0 {
+				d = 600
+			}
+			if d > 1200 {
+				d = 1200
+			}
+			opts.Deadline = time.Duration(d) * time.Second
 		}
 		fmt.Fprintf(os.Stderr, "== %s/%s [%s] ...\n", o.Pkg, o.Harness, o.Mode)
 		var onPath func(*Exec, PathResult)
